@@ -132,6 +132,18 @@ func optNamesFor(names []string) string {
 	return long
 }
 
+type c17Plain struct{ s string }
+
+func (v *c17Plain) Set(x string) error { v.s = x; return nil }
+func (v *c17Plain) String() string     { return v.s }
+
+type c17Def struct {
+	c17Plain
+	def bool
+}
+
+func (v *c17Def) IsDefault() bool { return v.def }
+
 type hNode struct {
 	name     string
 	aliases  []string
@@ -189,8 +201,24 @@ func genHelpNode(r *rand.Rand, name string, depth int, parent *hNode, version bo
 		hide := r.Intn(4) == 0
 		def := ""
 		name := strings.Join(nm, " ")
-		typ := r.Intn(7)
+		typ := r.Intn(9)
 		switch typ {
+		case 7, 8:
+			// user-supplied value type: the default shown is its String(), unless it says IsDefault()
+			txt := []string{"", "cv-1", "two words"}[r.Intn(3)]
+			isDef := typ == 8 && r.Intn(2) == 0
+			var val flag.Value = &c17Plain{txt}
+			if typ == 8 {
+				val = &c17Def{c17Plain{txt}, isDef}
+			}
+			if r.Intn(2) == 0 && e == "" && !hide {
+				decls = append(decls, func(c *cli.Cmd) { c.VarOpt(name, val, d) })
+			} else {
+				decls = append(decls, func(c *cli.Cmd) { c.Var(cli.VarOpt{Name: name, Desc: d, EnvVar: e, Value: val, HideValue: hide}) })
+			}
+			if !isDef {
+				def = txt
+			}
 		case 0:
 			v := r.Intn(2) == 0
 			decls = append(decls, func(c *cli.Cmd) { c.Bool(cli.BoolOpt{Name: name, Desc: d, EnvVar: e, Value: v, HideValue: hide}) })
